@@ -1,6 +1,7 @@
 """C06: closest returns exactly the nearest targets under the documented total order."""
 import common as cm
 import gen
+import vcommon
 
 IMPORTS = ["Base", "Harness", "Check_C06"]
 CHECK_FN = "check_C06"
@@ -88,3 +89,14 @@ def generate(ctx):
                             {"kind": "%s:%s%s" % ("closestN" if mode else "closest", measure, ":big" if big else ""), "nontrivial": dup or undefined}))
         cid += 1
     return cs
+
+
+_state = {}
+
+
+def extra(ctx, obl, cases, obs):
+    _state["binary_runs"] = vcommon.closest_cmd_layer(ctx, cm, gen, n_inputs=2 if ctx.tier == "quick" else 10)
+
+
+def coverage_extra(ctx):
+    return {"binary_runs": _state.get("binary_runs", 0)}
